@@ -1810,8 +1810,15 @@ func (c *cachedDnsForwarder) endUse() {
 		return
 	}
 	c.touch(time.Now())
-	if c.inFlight.Add(-1) == 0 && c.retired.Load() {
-		_ = c.closeNow()
+	if c.inFlight.Add(-1) == 0 {
+		if c.retired.Load() {
+			// A new user may have begun, and retire() may have left the close to
+			// it, between the decrement above and the load of retired: close only
+			// if nobody is in flight now (no user can start once retired is set).
+			if c.inFlight.Load() == 0 {
+				_ = c.closeNow()
+			}
+		}
 	}
 }
 
